@@ -12,10 +12,7 @@ import NemoVerif.Lemmas.PipelineOpts
 namespace NemoVerif.C16
 open NemoVerif NemoVerif.OptGuard NemoVerif.GenLog NemoVerif.PipelineOpts
 
-abbrev K : Consts :=
-  { ignoredActions := Generated.C16.ignoredActions, ignoredFlows := Generated.C16.ignoredFlows,
-    generationFlows := Generated.C16.generationFlows, relabelName := Generated.C16.relabelName,
-    relabelTask := Generated.C16.relabelTask }
+abbrev K : Consts := Kg
 
 /-! ## The pipeline with the guards of the current llm_flows.co -/
 
@@ -172,6 +169,25 @@ theorem log_lists_ran (cfg : Cfg) (hc : cfg.clean) (opts : Option Opts) (user : 
   rw [hs] at hk
   obtain ⟨c, i, x, hm⟩ := mem_ioCalls _ _ _ (mem_markLast _ _ _ hk)
   exact hn c i k.name x hm
+
+/-- **`compute_generation_log` returns on every log a turn writes**: no `None` is dereferenced, whatever the
+    configuration, options, texts and dialog — provided each rail's own log entries are acceptable inside an open rail
+    (`Rail.accepted`: e.g. a step, then `StartInternalSystemAction x` … `InternalSystemActionFinished x`).  Proved through an
+    exact boolean abstraction of the two references the loop dereferences (`run_of_accepts`). -/
+theorem compute_returns_on_turn_logs (cfg : Cfg) (ha : cfg.accepted) (opts : Option Opts) (user : String) (bot : Option String)
+    (dlg : Dialog) (out : PipelineOpts.Out) (h : turn Gd cfg opts user bot dlg = some out) : ∃ gl, compute K out.log = .ok gl :=
+  turn_log_accepted cfg ha opts user bot dlg out h
+
+/-- `log_lists_ran` without the "compute returns" condition: the generation log of every turn exists and lists exactly
+    the input/output rails that ran, `stop` on the blocker only. -/
+theorem log_lists_ran_total (cfg : Cfg) (hc : cfg.clean) (ha : cfg.accepted) (opts : Option Opts) (user : String) (bot : Option String)
+    (dlg : Dialog) (out : PipelineOpts.Out) (h : turn Gd cfg opts user bot dlg = some out)
+    (hn : ∀ c i n x, Step.railCall c i n x ∈ out.trace → n ≠ K.relabelName) :
+    ∃ gl, compute K out.log = .ok gl ∧ ioKeys gl.rails = markLast out.blocker.isSome (ioCalls out.trace) := by
+  obtain ⟨gl, hg⟩ := compute_returns_on_turn_logs cfg ha opts user bot dlg out h
+  exact ⟨gl, hg, log_lists_ran cfg hc opts user bot dlg out h hn gl hg⟩
+
+example : exCfg.accepted := exCfg_accepted
 
 /-- non-vacuity of `log_lists_ran` (finite facts, by evaluation): for `exCfg`, options input+output and a bot message the
     output rail rejects, the hypotheses hold, `compute` returns, and the log reads: in0, in1 ran, out0 blocked. -/
